@@ -476,6 +476,10 @@ impl<'a> Checker<'a>
         {
             fail!(self, "C14", "insertion-on-dead-entity", &["C18", "C01"], "instance {inst} reacted to an insertion on a despawned entity: {s:?}");
         }
+        if self.prog.insts[inst as usize].origin == Origin::Once && !s.is_empty()
+        {
+            fail!(self, "C15", "once-ran-without-trigger", &["C08", "C01"], "one-off reactor {inst} ran with {s:?} although none of its triggers fired (expected {want})");
+        }
         if s.rem.iter().flatten().next().is_some() || s.d.is_some()
         {
             fail!(self, "C08", "polled-spurious", &["C01"], "instance {inst} ran a removal/despawn reaction nothing accounts for: {s:?} (expected {want})");
